@@ -8,6 +8,7 @@ import (
 	"fmt"
 	"io"
 	"log/slog"
+	"os"
 	"runtime"
 	"testing/synctest"
 
@@ -25,7 +26,12 @@ import (
 
 const maxHandlerPoints = 4000
 
-var discardLog = slog.New(slog.NewTextHandler(io.Discard, nil))
+var discardLog = func() *slog.Logger {
+	if os.Getenv("VERIF_LOG") != "" {
+		return slog.New(slog.NewTextHandler(os.Stderr, &slog.HandlerOptions{Level: slog.LevelWarn}))
+	}
+	return slog.New(slog.NewTextHandler(io.Discard, nil))
+}()
 
 // ---- fault-injecting store wrappers (E-FLT) ----
 
